@@ -310,6 +310,48 @@ def fork_scenario(api, os_mod):
     return obs
 
 
+def sigchld_scenario(api, os_mod, signal_mod, now):
+    """a child exiting while the parent is blocked in accept(): the SIGCHLD handler runs at once (the call is
+    interrupted and retried), not when the accept time-out expires"""
+    obs = {}
+    f = Forker(api, os_mod)
+    ls = api.socket()
+    ls.bind(("127.0.0.1", 0))
+    ls.listen(5)
+    f.listener = ls
+    log = []
+
+    def handler(signum, frame):
+        try:
+            while True:
+                pid, st = os_mod.waitpid(-1, os_mod.WNOHANG)
+                if pid <= 0:
+                    break
+                log.append((now(), pid))
+        except OSError:
+            pass
+    old = signal_mod.signal(signal_mod.SIGCHLD, handler)
+    try:
+        c = api.socket()
+        c.connect(ls.getsockname())
+        ls.settimeout(2)
+        s, _ = ls.accept()
+        f._accept_method(s)
+        api.settle()
+        t0 = now()
+        c.send(b"quit")
+        r = attempt(lambda: ls.accept())          # nobody connects: blocks until the time-out
+        t1 = now()
+        obs["g.accept-times-out-despite-signal"] = r
+        obs["g.handler-ran-once-and-reaped-the-child"] = [pid == f.pids[0] for _, pid in log]
+        obs["g.handler-ran-during-the-blocked-accept"] = bool(log) and (log[0][0] - t0) < 1.0 and (t1 - t0) > 1.5
+        c.close()
+    finally:
+        signal_mod.signal(signal_mod.SIGCHLD, old)
+    ls.close()
+    return obs
+
+
 def run_sim():
     from mc import env
     env.install_sim()
@@ -323,6 +365,9 @@ def run_sim():
         simos.reset_kernel()
         simos.reset_procs()
         box["obs"].update(fork_scenario(api, simos.sim_os))
+        simos.reset_kernel()
+        simos.reset_procs()
+        box["obs"].update(sigchld_scenario(api, simos.sim_os, simos.sim_signal, S.sim_time.time))
     sch = S.Scheduler((), sync_points=False, io_points=False, horizon=1000)
     sch.run(main)
     if sch.outcome != "done" or sch.threads[0].exc is not None:
@@ -337,6 +382,8 @@ def run_real():
     try:
         obs = scenarios(api)
         obs.update(fork_scenario(api, os))
+        import signal
+        obs.update(sigchld_scenario(api, os, signal, real_time.monotonic))
         return obs
     finally:
         api.cleanup()
